@@ -16,8 +16,3 @@ INVARIANT ReduceOrder
 INVARIANT Aggregates
 INVARIANT SumIsAdd
 INVARIANT OpsAgrees
-INVARIANT CmpNoData
-INVARIANT FillNumber
-INVARIANT FillAsOf
-INVARIANT DivZeroFilled
-INVARIANT DivListZero
